@@ -183,7 +183,10 @@ def r2(db, rep):
             continue
         if f.id.startswith(NOT_SCRIPT_REACHABLE):
             continue
-        in_const = f.rec["kind"] in ("static", "constant", "associated constant") or f.rec["kind"].startswith(("const", "static", "assoc"))
+        if not f.mentions('"t":"assert"') or not (f.mentions("ByZero") or f.mentions("Overflow(Div)") or
+                                                     f.mentions("Overflow(Rem)") or f.mentions("OverflowNeg")):
+            continue
+        in_const = f.kind in ("static", "constant", "associated constant") or f.kind.startswith(("const", "static", "assoc"))
         for b in sorted(f.reachable()):
             t = f.blocks[b]["t"]
             if t["t"] != "assert" or t["kind"] not in ARITH:
